@@ -76,6 +76,50 @@ theorem partial_reset_pending (c : Cfg) (ar aq : Nat) (l : List Label) (k : Nat)
   simp only [reach, run] at hk hw hrst hurr hur hsr hrun
   simp [upResetL, hk, hst.1, hst.2.1, hst.2.2.1, hst.2.2.2, hurr, hw, upOnResetStream, hsr, hur, hrst, hrun]
 
+/-- [proxy7] **upfilter_reset_pending** — the machine label `reset during UpFilter`: in EVERY reachable state in which the
+worker runs the sender filters of a response (`upfRunning`: phase UpFilter, before its `processError`), the reset of a client
+stream that is still registered (the open stream of a streamed response whose head was accepted) raises `upstreamReset`
+with nothing sent downstream yet; the `processError` that ends the phase handles it at `s.phase == UpFilter`.  So every
+theorem of this file (`sender_once`, `outcome_total`, `clean_once`, `worker_returns_iff_cleaned`, …) and C10's
+`ledger_exact` quantify over schedules that contain this event: `inv_run` covers it. -/
+theorem upfilter_reset_pending (c : Cfg) (ar aq : Nat) (l : List Label) (k : Nat) (r : Reason) (st : Stream)
+    (hw : upfRunning (reach c ar aq l) = true) (hk : (reach c ar aq l).streams[k]? = some st)
+    (hst : st.real = true ∧ st.live = true ∧ st.counted = true ∧ st.listening = true) :
+    (reach c ar aq (l ++ [.upReset k r])).upReset = true ∧ (reach c ar aq (l ++ [.upReset k r])).respStarted = false ∧
+    (reach c ar aq (l ++ [.upReset k r])).trace = (reach c ar aq l).trace := by
+  have hi := inv_run c ar aq l
+  have hw' := hw
+  simp only [upfRunning, Bool.and_eq_true, beq_iff_eq] at hw'
+  have hcl := inv_not_cleaned hi hw'.1
+  have hsr := (hi.k7 hcl).1
+  have hlc : streamLiveCounted (reach c ar aq l) k = true := by simp [streamLiveCounted, hk, hst.2.1, hst.2.2.1]
+  have hpos := liveCounted_pos _ k hlc
+  have hur : (reach c ar aq l).upReset = false := by
+    cases hu : (reach c ar aq l).upReset with
+    | false => rfl
+    | true => have h0 : liveCount (reach c ar aq l).streams = 0 := hi.k23 hcl (Or.inl hu); omega
+  have hrst : (reach c ar aq l).respStarted = false := by
+    have := (hi.k15 hcl (by simp [hw'.2, upPhase])).2.2.2.2.1
+    rw [this, hw'.2]; decide
+  simp only [reach, run, List.foldl_append, List.foldl_cons, List.foldl_nil, step]
+  simp only [reach, run] at hk hw hrst hur hsr
+  simp [upResetL, hk, hst.1, hst.2.1, hst.2.2.1, hst.2.2.2, hw, upOnResetStream, hsr, hur, hrst]
+
+/-- non-vacuity: the request is sent, the head of a streamed 200 arrives, the worker enters UpFilter — the label is enabled -/
+example : upfRunning (reach {} 0 0 (List.replicate 12 .work ++ [.upRespS 0 200 true false, .work])) = true := by decide
+/-- … the reset raised there is answered with the error reply of its reason and everything is given back (on the code before
+the repair a3a21969e the worker returned here with `trace = [un 0, uh 0]`, not cleaned, the downstream gauge held) -/
+example : ((fun (s : S) => (s.trace, s.hTok, s.cleaned, s.running, s.upActive, s.downActive))
+    (reach {} 0 0 (List.replicate 12 .work ++ [.upRespS 0 200 true false, .work, .upReset 0 .StreamRemoteReset] ++
+      List.replicate 3 .work))) =
+    ([.un 0, .uh 0 true, .dh 502 true, .log 502 16], .loc, true, false, 0, 0) := by decide
+/-- … and with a retry policy it is retried: nothing had been sent downstream -/
+example : ((fun (s : S) => (s.trace, s.cleaned, s.upActive))
+    (reach { retryOn := true, numRetries := 1 } 0 0 (List.replicate 12 .work ++
+      [.upRespS 0 200 true false, .work, .upReset 0 .StreamConnectionTermination, .work, .work, .work, .upResp 1 200 false false] ++
+      List.replicate 4 .work))) =
+    ([.un 0, .uh 0 true, .un 1, .uh 1 true, .dh 200 true, .log 200 0], true, 0) := by decide
+
 /-- **clean_once**: the body of `cleanStream` (witnessed by the access-log event inside it) has run exactly once when
 the stream is cleaned and not at all before; it never runs twice. -/
 theorem clean_once (c : Cfg) (ar aq : Nat) (l : List Label) :
